@@ -7,6 +7,10 @@ import (
 	"github.com/pion/rtp"
 )
 
+const (
+	maxUnitSize = 1 * 1024 * 1024
+)
+
 // ErrMorePacketsNeeded is returned when more packets are needed to complete a KLV unit.
 var ErrMorePacketsNeeded = errors.New("need more packets")
 
@@ -140,6 +144,12 @@ func (d *Decoder) Decode(pkt *rtp.Packet) ([]byte, error) {
 
 		// Append this packet's payload to the buffer
 		d.buffer = append(d.buffer, payload...)
+
+		if len(d.buffer) > maxUnitSize {
+			size := len(d.buffer)
+			d.reset()
+			return nil, fmt.Errorf("KLV unit size (%d) is too big, maximum is %d", size, maxUnitSize)
+		}
 	}
 
 	// Check if we have a complete KLV unit
